@@ -257,7 +257,18 @@ def run_shard(bins, sh, tmp, idx, keep_trace=False):
     with open(trace) as f:
         q = run([os.path.join(LEAN, ".lake", "build", "bin", "driver"), sh.driver], stdin=f, timeout=3600)
     if q.returncode != 0:
-        raise Infra("driver %s failed (%d): %s" % (sh.driver, q.returncode, (q.stderr or q.stdout)[-3000:]))
+        msg = (q.stderr or q.stdout)[-3000:]
+        m = re.search(r"line (\d+)", msg)
+        if m:
+            try:
+                with open(trace) as f2:
+                    for i, l in enumerate(f2, 1):
+                        if i == int(m.group(1)):
+                            msg += " | trace line: " + l.rstrip("\n")[:1500]
+                            break
+            except OSError:
+                pass
+        raise Infra("driver %s failed (%d): %s" % (sh.driver, q.returncode, msg))
     out = dict(cmd=cmd, propfail=[], diverge=[], cover={}, summary={}, samples=[], wall=time.time() - t0, stderr=p.stderr[-2000:])
     for line in q.stdout.splitlines():
         if line.startswith("PROPFAIL "):
